@@ -18,13 +18,14 @@ import (
 	"encoding/json"
 	"errors"
 	"fmt"
+	"strings"
 
 	"github.com/notaryproject/notation-core-go/signature"
 	"github.com/notaryproject/notation-go"
 	"github.com/notaryproject/notation-go/verifharness/lib"
 	"github.com/notaryproject/notation-go/verifier"
-	"github.com/opencontainers/go-digest"
 	pf "github.com/notaryproject/notation-plugin-framework-go/plugin"
+	"github.com/opencontainers/go-digest"
 	ocispec "github.com/opencontainers/image-spec/specs-go/v1"
 	gocose "github.com/veraison/go-cose"
 )
@@ -41,7 +42,9 @@ type oneRepo struct {
 	mt   string
 }
 
-func (o oneRepo) Resolve(ctx context.Context, ref string) (ocispec.Descriptor, error) { return o.desc, nil }
+func (o oneRepo) Resolve(ctx context.Context, ref string) (ocispec.Descriptor, error) {
+	return o.desc, nil
+}
 func (o oneRepo) ListSignatures(ctx context.Context, d ocispec.Descriptor, fn func([]ocispec.Descriptor) error) error {
 	return fn([]ocispec.Descriptor{{MediaType: ocispec.MediaTypeImageManifest, Digest: digest.FromBytes(o.sig), Size: 1}})
 }
@@ -135,6 +138,11 @@ func main() {
 			}
 			// foreign payload type and non-JSON payload, validly signed
 			pool = append(pool, env{"fresh-foreign-payload-type|" + f + "|" + scheme, f, lib.MustCoreSign(lib.SignSpec{Format: f, Scheme: signature.SigningScheme(scheme), Payload: lib.Payload(artA.Desc), ContentType: "application/json", Signer: good})})
+			for ti, ct := range []string{lib.PayloadType + "; charset=utf-8", strings.Replace(lib.PayloadType, "+json", "+JSON", 1), "Application/Vnd.CNCF.Notary.Payload.V1+json", lib.PayloadType + ";version=2", "application/vnd.in-toto+json", lib.PayloadType + " "} {
+				if raw, err := lib.CoreSign(lib.SignSpec{Format: f, Scheme: signature.SigningScheme(scheme), Payload: lib.Payload(artA.Desc), ContentType: ct, Signer: good}); err == nil { // (COSE cannot carry every spelling)
+					pool = append(pool, env{fmt.Sprintf("fresh-near-miss-payload-type-%d|%s|%s", ti, f, scheme), f, raw})
+				}
+			}
 			pool = append(pool, env{"fresh-payload-without-target|" + f + "|" + scheme, f, lib.MustCoreSign(lib.SignSpec{Format: f, Scheme: signature.SigningScheme(scheme), Payload: []byte(`{}`), Signer: good})})
 		}
 	}
